@@ -689,6 +689,13 @@ class NDArr:
         if not self.shape:
             I.raise_("IndexError", "too many indices for array")
         n = self.shape[0]
+        if isinstance(idx, tuple):
+            if len(idx) == 1:
+                return self.getitem(I, idx[0])
+            if len(idx) == 2 and len(self.shape) == 2:
+                row = self.getitem(I, idx[0])
+                return row.getitem(I, idx[1])
+            raise PyvcError("numpy multi-dimensional indexing form not modelled")
         if isinstance(idx, SV):
             j = BM.norm_index(I, idx, n)
             if n == 0:
@@ -907,3 +914,26 @@ def _make_trimesh(I):
 
 
 EXTRA_MODULES.setdefault("trimesh", _make_trimesh)
+
+
+# ------------------------------------------------------------------------------------------------
+# fcl (collision kernel): answers come from the contract's geometry-kernel oracle
+
+
+def _make_fcl(I):
+    def collision_object(*args, **kwargs):
+        o = PObj("FclCollisionObject")
+        o.fields["args"] = tuple(args)
+        return o
+
+    def collide(a, b, *rest, **kwargs):
+        for x in (a, b):
+            g = x.fields["args"][0] if isinstance(x, PObj) and x.fields.get("args") else None
+            if isinstance(g, PObj) and "_collide" in g.fields:
+                return g.fields["_collide"](a, b)
+        raise PyvcError("fcl.collide on objects without a kernel oracle")
+
+    return NativeModule("fcl", {"CollisionObject": BuiltinFn("fcl.CollisionObject", collision_object), "collide": BuiltinFn("fcl.collide", collide)})
+
+
+EXTRA_MODULES.setdefault("fcl", _make_fcl)
